@@ -136,3 +136,10 @@ Proof.
   - intros [].
 Qed.
 Print Assumptions C13_tree_new_index_not_wired_current_refuted.
+
+(* ---- finding C13-marked-policy-still-listed: between the mark of a retention policy and the stores' deletion the listing still shows
+   what the select already refuses *)
+Theorem C13_phases_marked_policy_still_listed_current_refuted :
+  exists (os : list pstep), plisted false (prun true (p0 1) os) <> pvisible (prun true (p0 1) os).
+Proof. exists [PCreate; PWrite 0; PMark]. vm_compute. discriminate. Qed.
+Print Assumptions C13_phases_marked_policy_still_listed_current_refuted.
